@@ -371,6 +371,12 @@ func (o *DatReaderOptimizer) Optimize(rules []*config_parser.RoutingRule) ([]*co
 						params, loadErr = o.loadGeoIp("geoip", param.Val)
 					case "ext":
 						fields := strings.SplitN(param.Val, ":", 2)
+						if len(fields) != 2 {
+							// "ext: file" without ":code" - report it instead of indexing past
+							// the slice inside this worker goroutine (which would crash the process).
+							results <- ruleResult{idx, nil, fmt.Errorf("invalid ext parameter %q: expected \"<file>:<code>\"", param.Val)}
+							return
+						}
 						switch f.Name {
 						case consts.Function_Domain, consts.Function_QName:
 							params, loadErr = o.loadGeoSite(fields[0], fields[1])
